@@ -64,7 +64,7 @@ PROPS = {
             "design_ref": "DESIGN.md §5 C03",
         },
         "lean_props": ["C03", "C08", "C10", "EngineThms"],
-        "streams": [SOL, HIST],
+        "streams": [SOL, HIST, HISTUC],
     },
     "C04": {
         "claim": {
@@ -80,7 +80,7 @@ PROPS = {
             "design_ref": "DESIGN.md §5 C04",
         },
         "lean_props": ["C04", "EngineThms"],
-        "streams": [SOL, HIST],
+        "streams": [SOL, HIST, HISTUC],
     },
     "C05": {
         "claim": {
@@ -96,7 +96,7 @@ PROPS = {
             "design_ref": "DESIGN.md §5 C05",
         },
         "lean_props": ["C05", "C08", "EngineThms"],
-        "streams": [SOL, HIST],
+        "streams": [SOL, HIST, HISTUC],
     },
     "C06": {
         "claim": {
@@ -145,7 +145,7 @@ PROPS = {
             "design_ref": "DESIGN.md §5 C08",
         },
         "lean_props": ["C08"],
-        "streams": [SOL, HIST],
+        "streams": [SOL, HIST, HISTUC],
     },
     "C09": {
         "claim": {
